@@ -637,6 +637,23 @@ func (e *env) main(inClose, closeReturned *bool) {
 			}
 			return nil
 		}
+		core.Act = func(proc, cb, name string) error {
+			tgt := byName[name]
+			if tgt == nil || theApp == nil {
+				return nil
+			}
+			for _, r := range pr.Rules {
+				if r.Target == tgt.ID && r.At == cb && r.Action == "lookup" {
+					if other := p.InstByID(r.Sub); other != nil {
+						ctx.Log("proc-lookup", pr.ID+"@"+name, r.Sub)
+						if _, err := theApp.GetComponentByName(p.NameOf(other)); err != nil {
+							return err
+						}
+					}
+				}
+			}
+			return nil
+		}
 		if pr.Lazy {
 			comps = append(comps, simrt.NewLazyProc(pr.Class, pr.OrderClass, pr.Order, core))
 		} else {
@@ -647,6 +664,7 @@ func (e *env) main(inClose, closeReturned *bool) {
 	for _, sc := range p.Scanners {
 		h := &simrt.Handle{ID: sc.ID, Alias: sc.ID, C: ctx}
 		s := simrt.NewTagScanner(h, sc.Tag, sc.NodeType, sc.Handler)
+		s.Inventory = sc.Inventory
 		e.scans[sc.ID] = s
 		comps = append(comps, s)
 		compIDs = append(compIDs, sc.ID)
